@@ -13,6 +13,7 @@ Decided here (equality of sets and independence of the number of spare variable 
           number of copies."""
 import evalnode as E
 import lowlevel
+import norm
 import pipelines
 import semantics as sem
 import terms
@@ -65,20 +66,44 @@ def run(prog, rep):
         mapping = {a: ("param", b) for a, b in zip(dirty.param_names(), f.param_names())}
         td = terms.subst(td, mapping)
         graph = [("param", p) for p, t in zip(f.param_names(), f.param_tys) if "SymbolicAsyncGraph" in t]
+        nz = norm.Normalizer()
+        ts, td = nz(ts), nz(td)
         found = []
-        rest = strip_sanitize(ts, graph, found)
-        raw_left = any(x[0] in ("call", "rec") and isinstance(x[1], str) and x[1].endswith("::eval_node") for x in subterms(rest))
-        ok_graph = bool(found) and bool(graph) and all(g == graph[0] for g, _, _ in found)
-        raw = terms.mk_proj(td, "std::result::Result::Ok", 0)
-        cands = [raw] + [y[1] for y in [raw] + list(subterms(raw)) if y[0] == "index" and y[2] == ("lit", 0)]
-        ok_elem = bool(found) and all(x in cands for _, x, _ in found)
-        # the mapped collection is not filtered / reordered
-        adapters = [x[1].rsplit("::", 1)[-1] for x in subterms(rest) if x[0] == "call" and isinstance(x[1], str)]
-        hofs = [x[1] for x in subterms(rest) if x[0] == "hof"]
-        bad = [a for a in adapters + hofs if a in ("filter", "filter_map", "rev", "skip", "take", "step_by", "zip", "chain", "dedup", "sort", "retain")]
-        good = not raw_left and ok_graph and ok_elem and not bad
-        why = (f"raw eval_node results reach the caller unsanitised={raw_left}; sanitised on the same graph={ok_graph}; "
-               f"sanitised values are the elements of the dirty pipeline's result={ok_elem}; extra adapters={bad}")
+
+        def unsanitise(t, top=True):
+            """The value with `sanitize_colored_vertices(g, y)` replaced by y at element positions (the element of the result
+            collection, or the single result); `found` collects the graphs used."""
+            if not isinstance(t, tuple) or not t:
+                return t
+            if t[0] == "call" and isinstance(t[1], str) and t[1].endswith("sanitize_colored_vertices") and len(t[2]) == 2:
+                found.append(t[2][0])
+                return t[2][1]
+            if t[0] == "ctor" and str(t[1]).rsplit("::", 1)[-1] == "Ok" and len(t[2]) == 1:
+                return ("ctor", t[1], (unsanitise(t[2][0]),))
+            if t[0] == "collect":
+                return ("collect", t[1], unsanitise(t[2]))
+            if t[0] == "index":
+                return ("index", unsanitise(t[1]), t[2])
+            if t[0] == "call" and isinstance(t[1], str) and t[1].rsplit("::", 1)[-1] in ("clone", "to_owned") and len(t[2]) == 1:
+                return ("call", t[1], (unsanitise(t[2][0]),))
+            if t[0] == "ite":
+                return ("ite", t[1], unsanitise(t[2]), unsanitise(t[3]))
+            return ("#raw", t)
+
+        def strip_raw(t):
+            if not isinstance(t, tuple) or not t:
+                return t
+            if t[0] == "#raw":
+                return t[1]
+            return tuple(strip_raw(x) if isinstance(x, tuple) else x for x in t)
+        un = unsanitise(ts)
+        raws = [y[1] for y in subterms(un) if y[0] == "#raw"] + ([un[1]] if un[0] == "#raw" else [])
+        raw_left = any(not (r[0] == "ctor" and str(r[1]).endswith("Err")) for r in raws)
+        ok_graph = bool(found) and bool(graph) and all(g == graph[0] for g in found)
+        ok_elem = nz(strip_raw(un)) == td
+        good = not raw_left and ok_graph and ok_elem
+        why = (f"values reach the caller without passing sanitize_colored_vertices={raw_left}; sanitised on the same graph={ok_graph}; "
+               f"without the sanitising step the value equals the dirty sibling's result={ok_elem}")
         rep.check(good, "C15-R1", f"{name}", f"{f.file}:{f.line}", "result = map(sanitize_colored_vertices(graph, .)) over the dirty results", why)
     rep.floor("C15-R1", 10)
     eng = terms.Engine(prog, inline=False)
@@ -100,6 +125,8 @@ def run(prog, rep):
             tr = bdd
             if tr[0] == "call" and tr[1].rsplit("::", 1)[-1] in ("unwrap", "expect"):
                 tr = tr[2][0]
+            if tr[0] == "proj" and str(tr[2]).rsplit("::", 1)[-1] == "Some" and tr[3] == 0:
+                tr = tr[1]
             tr_ok = (tr[0] == "call" and tr[1].endswith("transfer_from") and len(tr[2]) == 3 and tr[2][0] == cctx
                      and tr[2][1][0] == "call" and tr[2][1][1].endswith("as_bdd") and tr[2][1][2] == (x,)
                      and tr[2][2][0] == "call" and tr[2][2][1].endswith("symbolic_context") and tr[2][2][2] == (g,))
@@ -112,12 +139,15 @@ def run(prog, rep):
         rep.functions.add(f.qual)
         s = eng.summary(f)
         pn = f.param_names()
-        ins = [x for x in s.sites if x.kind == "mcall" and x.name == "insert"]
-        fors = [x for x in s.sites if x.kind == "for"]
-        good = len(ins) == 1 and len(fors) == 1 and ins[0].args[2] == ("param", pn[1]) and ins[0].args[1] == ("elem", fors[0].args[0]) \
-            and fors[0].args[0][0] == "call" and fors[0].args[0][1].endswith("::variables") and fors[0].args[0][2] == (("param", pn[0]),)
         ctxs = [x for x in s.sites if x.kind == "call" and x.is_call_to("with_extra_state_variables")]
-        good = good and len(ctxs) == 1 and ctxs[0].args[0] == ("param", pn[0])
+        bn, num = ("param", pn[0]), ("param", pn[1])
+        good = len(ctxs) == 1 and ctxs[0].args[0] == bn
+        if good:
+            m = ctxs[0].args[1]
+            while m[0] == "call" and m[1].rsplit("::", 1)[-1] in ("clone", "borrow", "as_ref") and len(m[2]) == 1:
+                m = m[2][0]
+            vs = ("call", m[1][1], (bn,)) if m[0] == "collectmap" and m[1][0] == "call" and str(m[1][1]).endswith("::variables") else None
+            good = m[0] == "collectmap" and vs is not None and m[1] == vs and m[2] == ("lit", True) and m[3] == ("elem", vs) and m[4] == num
         rep.check(good, "C15-R3", "get_extended_symbolic_graph/uniform", f"{f.file}:{f.line}", "every network variable gets num_hctl_vars copies",
                   "the number of symbolic copies is not the same `num_hctl_vars` for every network variable")
     rep.floor("C15-R3", 6)
